@@ -328,7 +328,7 @@ def gen_hist(rng):
             flags = [f for f in ("--no-source", "--no-ast", "--no-pickles") if rng.random() < 0.3]
             ops.insert(rng.randrange(len(ops) + 1), {"op": "cli", "argv": flags + [good[rng.randrange(len(good))] for _ in range(rng.randint(1, 3))]})
     spec = {"scenario": "hist", "prop": "C17", "labels": labels, "oracles": ["stable", "progress", "offset"],
-            "cfg": {"flavour": rng.choice(["inc", "inc", "opaque"]), "salt": rng.getrandbits(32), "chunk_max": rng.choice([0, 1, 2, 3, 7, 64, 4096]),
+            "cfg": {"flavour": rng.choice(["inc", "inc", "inc", "opaque", "weird"]), "salt": rng.getrandbits(32), "chunk_max": rng.choice([0, 1, 2, 3, 7, 64, 4096]),
                     "fs_seed": rng.getrandbits(30), "locale": rng.choice(["utf-8", "cp1252", "ascii"])},
             "gens": 0, "fs": {"files": files, "binfiles": binfiles, "faults": faults}, "tasks": [{"streams": streams, "ops": ops}]}
     if rng.random() < 0.03:
@@ -370,7 +370,7 @@ def gen_inter(rng):
                       "ops": _stream_ops(rng, paths, nstreams, rng.randint(1, 2))})
         labels.append(lb)
     spec = {"scenario": "inter", "prop": "C17", "labels": labels, "oracles": ["stable", "progress", "offset"], "force_kernel": True,
-            "cfg": {"flavour": rng.choice(["inc", "opaque"]), "salt": rng.getrandbits(32), "chunk_max": rng.choice([0, 1, 3, 64]),
+            "cfg": {"flavour": rng.choice(["inc", "opaque", "weird"]), "salt": rng.getrandbits(32), "chunk_max": rng.choice([0, 1, 3, 64]),
                     "fs_seed": rng.getrandbits(30), "policy": POLICIES[rng.randrange(len(POLICIES))], "sched_seed": rng.getrandbits(32)},
             "gens": 0, "fs": {"files": files, "binfiles": binfiles, "faults": faults}, "tasks": tasks}
     return spec
